@@ -286,6 +286,20 @@ def gen_retry(seed: int, kn: dict | None = None) -> dict:
             c["ext_consume"] = sorted(r.sample(range(0, 4), r.randint(1, 2)))
     if place["sleeper"] != "none" and r.random() < kn.get("p_sized_sleeper", 0.08):
         place["sleeper_shape"] = "sized"
+    if place["handler"] != "none" and r.random() < kn.get("p_sized_handler", 0.06):
+        place["handler_shape"] = "sized"
+    if place["before_sleep"] != "none" and r.random() < kn.get("p_sized_handler", 0.06):
+        place["bs_shape"] = "sized"
+    if r.random() < kn.get("p_cls_details", 0.08):
+        cfg["cls_shape"] = "obj_details"
+    if r.random() < kn.get("p_reuse_refreshed", 0.06):
+        for c in calls:
+            for st in c["attempts"]:
+                if st["kind"] == "exc" and not (st.get("timeout_type") or st.get("falsy") or st.get("frozen")) and r.random() < 0.5:
+                    st["reuse_refreshed"] = True
+    if kn.get("p_slow_strategy") and r.random() < kn["p_slow_strategy"]:
+        for c in calls:
+            c["strategy_dur"] = [r.choice([0, 1000, 250_000, 1_000_000]) for _ in range(r.randint(1, 3))]
     if r.random() < kn.get("p_sized_strategy", 0.08):
         cfg["strat_shape"] = "sized"
     if place["handler"] != "none" and kn.get("p_slow_handler") and r.random() < kn["p_slow_handler"]:
@@ -294,6 +308,6 @@ def gen_retry(seed: int, kn: dict | None = None) -> dict:
     if r.random() < kn.get("p_late", 0.1):
         # some settings reach the live policy object only after construction (attribute assignment through the entry
         # object: the facades forward to their retry component); decorator / from_config entries are built complete
-        place["late"] = r.sample(["budget", "sleep", "before_sleep", "sleeper", "result_classifier", "max_unknown_attempts", "deadline", "max_attempts"],
-                                 r.randint(1, 3))
+        place["late"] = r.sample(["budget", "sleep", "before_sleep", "sleeper", "result_classifier", "max_unknown_attempts", "deadline", "max_attempts",
+                                  "classifier"], r.randint(1, 3))
     return scn
